@@ -39,6 +39,7 @@ func init() {
 		Rule: "golden = clean production run of request R on an empty cache; universe U = every durable file it left (full store snapshots, cached outputs, index files) + the partial store file of every (store stage, segment) unit, obtained from stand-alone tier2 jobs. " +
 			"exhaustive part: for G generated (package, R) pairs with |U| <= N (quick G=2,N=10; thorough G=6,N=15) EVERY subset S of U is restored into a fresh directory (a quarter of them with truncated '<file>.<8 letters>.tmp' siblings of missing files added) and R is run again (1..4 workers, PRNG completion order); " +
 			"sampled part: PRNG subsets of larger universes, a shifted request R', and real interruption states (request cancelled after the k-th data message, then re-run). Monitors per run: request completes; stream == sequential reference (C01/C04 clauses); every file left behind decodes to the reference content (cache auditor); no '.tmp' name is ever listed as a snapshot. " +
+			"concurrent part (mode race; quick 10, thorough 40 cases): 2..3 production requests run CONCURRENTLY on one state directory inside the -race binary, twice; completed requests must stream the reference, every file left behind must decode to the reference content, and the race detector watches the squasher's asynchronous snapshot writes against the next merge. " +
 			"non-trivial = subset that is neither empty nor full and for which at least one tier2 job ran; distinct by (graph, subset bitmask)",
 		Assumptions: []string{
 			"each cache file is a pure function of (module hash, block range), checked by the cache auditor against REF-LINEAR",
@@ -49,15 +50,15 @@ func init() {
 		Cases: func(tier, mode string) int {
 			d := c07Domain(tier)
 			if mode == "race" {
-				return 40
+				if tier == "thorough" {
+					return 40
+				}
+				return 10
 			}
 			return d.graphs*((1<<d.maxN)/c07Chunk) + d.sampled
 		},
 		Modes: func(tier string) []string {
-			if tier == "thorough" {
-				return []string{"plain", "race"}
-			}
-			return []string{"plain"}
+			return []string{"plain", "race"}
 		},
 		Exhaustive:    func(tier string) bool { return false },
 		CaseTimeout:   300e9,
